@@ -34,15 +34,16 @@ From IastRw Require Import Sem P_Sem.
     interaction with the world ([EvStr]) like any other. *)
 Theorem C01_core_equivalence :
   forall (respond : hist -> event -> resp) (ustore : hist -> string -> value)
-         (instr lit_ok : string -> bool) (e : expr),
+         (instr lit_ok awc : string -> bool) (e : expr),
+    (forall f, awc f = false) ->     (* no method "allowed without callee": see C01_bare_call_refuted below *)
     src e ->
     forall c h t,
-      let e' := fst (rw instr lit_ok e c) in
-      let c' := snd (rw instr lit_ok e c) in
+      let e' := fst (rw instr lit_ok awc e c) in
+      let c' := snd (rw instr lit_ok awc e c) in
       c <= c' /\
       forall o h', (forall t2 : tenv, eval respond ustore e (h, t2) = (o, (h', t2))) ->
         exists t', eval respond ustore e' (h, t) = (o, (h', t')) /\ frame c c' t t'.
-Proof. intros respond ustore instr lit_ok e Hs. exact (rw_correct respond ustore instr lit_ok e Hs). Qed.
+Proof. intros respond ustore instr lit_ok awc e NA Hs. exact (rw_correct respond ustore instr lit_ok awc NA e Hs). Qed.
 Print Assumptions C01_core_equivalence.
 
 (** The premise is always met: a source expression has an outcome and a history that do not depend on
@@ -58,32 +59,33 @@ Print Assumptions C01_source_ignores_temporaries.
     not passed; a method call on an identifier with a literal argument. *)
 Example C01_core_example :
   let all := fun _ : string => true in
-  fst (rw all all (Add (CallE (Var "f") (Var "x")) (Var "y")) 0) =
+  let none := fun _ : string => false in
+  fst (rw all all none (Add (CallE (Var "f") (Var "x")) (Var "y")) 0) =
     Hoist1 0 (CallE (Var "f") (Var "x")) (Hook (Add (Tmp 0) (Var "y")) [Tmp 0; Var "y"]) /\
-  fst (rw all all (Add (Var "y") (CallE (Var "f") (Var "x"))) 0) =
+  fst (rw all all none (Add (Var "y") (CallE (Var "f") (Var "x"))) 0) =
     Hoist2 0 (Var "y") 1 (CallE (Var "f") (Var "x")) (Hook (Add (Tmp 0) (Tmp 1)) [Tmp 0; Tmp 1]) /\
-  fst (rw all all (Add (Add (Lit (VStr "a")) (Lit (VStr "b"))) (Var "y")) 0) =
+  fst (rw all all none (Add (Add (Lit (VStr "a")) (Lit (VStr "b"))) (Var "y")) 0) =
     Hoist1 0 (Var "y") (Hook (Add (Add (Lit (VStr "a")) (Lit (VStr "b"))) (Tmp 0)) [Tmp 0]) /\
-  fst (rw all all (MCall1 (Var "s") "concat" (Lit (VStr "x"))) 0) =
+  fst (rw all all none (MCall1 (Var "s") "concat" (Lit (VStr "x"))) 0) =
     Hoist2 0 (Var "s") 1 (Get (Tmp 0) "concat")
            (Hook (CallT1 (Tmp 1) (Tmp 0) (Lit (VStr "x"))) [Tmp 1; Tmp 0; Lit (VStr "x")]) /\
-  fst (rw all all (MCall0 (Lit (VStr "s")) "trim") 0) =
+  fst (rw all all none (MCall0 (Lit (VStr "s")) "trim") 0) =
     Hoist1 0 (Get (Lit (VStr "s")) "trim") (Hook (CallT0 (Tmp 0) (Lit (VStr "s"))) [Tmp 0; Lit (VStr "s")]) /\
   (* o().p += s : the object is evaluated once *)
-  fst (rw all all (AddAsgM (CallE (Var "o") (Var "z")) "p" (Var "s")) 0) =
+  fst (rw all all none (AddAsgM (CallE (Var "o") (Var "z")) "p" (Var "s")) 0) =
     Hoist1 0 (CallE (Var "o") (Var "z"))
       (AsgM (Tmp 0) "p" (Hoist1 1 (Get (Tmp 0) "p") (Hook (Add (Tmp 1) (Var "s")) [Tmp 1; Var "s"]))) /\
   (* `a${x}b${f(y)}c` : identifiers are captured too; a template with a literal substitution is left alone *)
-  fst (rw all all (Tpl2 "a" (Var "x") "b" (CallE (Var "f") (Var "y")) "c") 0) =
+  fst (rw all all none (Tpl2 "a" (Var "x") "b" (CallE (Var "f") (Var "y")) "c") 0) =
     Hoist2 0 (Var "x") 1 (CallE (Var "f") (Var "y")) (Hook (Tpl2 "a" (Tmp 0) "b" (Tmp 1) "c") [Tmp 0; Tmp 1]) /\
-  fst (rw all all (Tpl2 "" (Lit (VStr "l")) "" (Add (Var "x") (Var "y")) "") 0) =
+  fst (rw all all none (Tpl2 "" (Lit (VStr "l")) "" (Add (Var "x") (Var "y")) "") 0) =
     Tpl2 "" (Lit (VStr "l")) "" (Add (Var "x") (Var "y")) "" /\
   (* g(a)?.trim() : the guard temporary first, then the call on it (captured once more, like any identifier receiver) *)
-  fst (rw all all (OptMCall0 (CallE (Var "g") (Var "a")) "trim") 0) =
+  fst (rw all all none (OptMCall0 (CallE (Var "g") (Var "a")) "trim") 0) =
     Guard 0 (CallE (Var "g") (Var "a"))
       (Hoist2 1 (Tmp 0) 2 (Get (Tmp 1) "trim") (Hook (CallT0 (Tmp 2) (Tmp 1)) [Tmp 2; Tmp 1])) /\
   (* a chain on a literal receiver is left alone, its argument is still rewritten *)
-  fst (rw all all (OptMCall1 (Lit (VStr "l")) "concat" (Add (Var "x") (Var "y"))) 0) =
+  fst (rw all all none (OptMCall1 (Lit (VStr "l")) "concat" (Add (Var "x") (Var "y"))) 0) =
     OptMCall1 (Lit (VStr "l")) "concat" (Hook (Add (Var "x") (Var "y")) [Var "x"; Var "y"]).
 Proof. repeat split; reflexivity. Qed.
 
@@ -116,3 +118,28 @@ Example C01_optional_call_callees :
   oc_callee_member (mk_paren (0, 6)%N m) = Some (mk_ident (1, 2)%N "o", mk_ident_name (3, 4)%N "m", false) /\
   oc_callee_member (mk KOptChain (1, 7)%N [nB false; mk_member (1, 7)%N (mk KOptChain (1, 5)%N [nB true; m]) (mk_ident_name (6, 7)%N "n")]) = None.
 Proof. repeat split; reflexivity. Qed.
+
+(** ** The statement is FALSE for bare calls of a method "allowed without callee" (open finding 21e).
+    The rewritten call reads the callee identifier after its argument has been evaluated.  Witness: a world in which
+    every user variable changes value after the first interaction (the model's worlds may rewrite any user variable on
+    any interaction; in JavaScript: the argument's evaluation reassigns the callee, [alone((alone = g, 1))], or calls
+    something that does).  The source calls the value [f] had BEFORE the argument ran, the rewritten code the value it
+    has after. *)
+Example C01_bare_call_refuted :
+  let respond := fun (_ : hist) (_ : event) => RRet (VStr "r") in
+  let ustore := fun (h : hist) (_ : string) => match h with [] => VObj 1 | _ => VObj 2 end in
+  let none := fun _ : string => false in
+  let awc := fun f : string => String.eqb f "alone" in
+  let e := CallE (Var "alone") (CallE (Var "g") (Lit (VStr "x"))) in
+  let t0 : tenv := fun _ => VUndef in
+  src e /\
+  fst (rw none none awc e 0) =
+    Hoist1 0 (CallE (Var "g") (Lit (VStr "x")))
+      (Hook (CallE (Var "alone") (Tmp 0)) [Var "alone"; Var "undefined"; Tmp 0]) /\
+  (* the source: g is called, then the ORIGINAL function (object 1) with the result *)
+  fst (snd (eval respond ustore e ([], t0))) =
+    [EvCall (VObj 1) [VStr "x"]; EvCall (VObj 1) [VStr "r"]] /\
+  (* the rewritten expression: g is called, then whatever the identifier holds by then (object 2) *)
+  fst (snd (eval respond ustore (fst (rw none none awc e 0)) ([], t0))) =
+    [EvCall (VObj 1) [VStr "x"]; EvCall (VObj 2) [VStr "r"]].
+Proof. cbv zeta. repeat split; vm_compute; try reflexivity; auto. Qed.
